@@ -37,6 +37,8 @@ let () =
           | Some o -> o
           | None -> match ser_line l with
           | Some o -> o
+          | None -> match trace_line idna l with
+          | Some o -> o
           | None -> let (st', out) = run_line idna !st l in st := st'; out in
         Buffer.clear buf;
         List.iter (fun c -> Buffer.add_char buf (Char.chr (int_of_n c land 255))) out;
